@@ -33,6 +33,7 @@ import (
 	"time"
 
 	"github.com/parquet-go/parquet-go"
+	"github.com/parquet-go/parquet-go/bloom"
 	"github.com/parquet-go/parquet-go/encoding/thrift"
 	"github.com/parquet-go/parquet-go/format"
 
@@ -1474,6 +1475,9 @@ type c14File struct {
 	onlyMode string
 	onlyKeep int
 	onlyHist string
+
+	probeOnce sync.Once
+	probes    []c14Probe
 }
 
 func c14Files(ctx *core.Ctx) []*c14File {
@@ -2026,7 +2030,120 @@ func c14Histories(ctx *core.Ctx) []c14History {
 	hs = append(hs, c14History{"readrowsfrom-seek-1/3", func(r io.ReaderAt, size int64, f *c14File) (string, string, error) {
 		return c14SeekRowsVia(r, size, f, 1, 3, "readrowsfrom")
 	}})
+	// what a point lookup reads instead of rows: the bloom filter of every chunk probed with keys
+	// that are present (a lazily probed filter reads one 32-byte block per Check), the column and
+	// offset index of every chunk; once with the defaults of OpenFile and once with everything
+	// deferred to the moment of the lookup
+	hs = append(hs, c14History{"lookup-default", func(r io.ReaderAt, size int64, f *c14File) (string, string, error) {
+		return c14Lookup(r, size, f, false)
+	}})
+	hs = append(hs, c14History{"lookup-lazy", func(r io.ReaderAt, size int64, f *c14File) (string, string, error) {
+		return c14Lookup(r, size, f, true)
+	}})
 	return hs
+}
+
+type c14Probe struct {
+	rg, col int
+	val     parquet.Value
+}
+
+// c14Probes lists, per (row group, leaf column), up to 12 distinct non-null values that the chunk
+// holds (read once from the intact bytes): the keys a lookup may ask the bloom filter for.
+func c14Probes(f *c14File) []c14Probe {
+	f.probeOnce.Do(func() {
+		defer func() { recover() }()
+		pf, err := parquet.OpenFile(bytes.NewReader(f.data), int64(len(f.data)), f.opts...)
+		if err != nil {
+			return
+		}
+		for gi, rg := range pf.RowGroups() {
+			seen := map[string]bool{}
+			count := map[int]int{}
+			rows := rg.Rows()
+			buf := make([]parquet.Row, 16)
+			for {
+				n, err := rows.ReadRows(buf)
+				for _, row := range buf[:n] {
+					for _, v := range row {
+						k := fmt.Sprintf("%d/%s", v.Column(), gen.ValueKey(v))
+						if v.IsNull() || seen[k] || count[v.Column()] >= 12 {
+							continue
+						}
+						seen[k] = true
+						count[v.Column()]++
+						f.probes = append(f.probes, c14Probe{gi, v.Column(), v.Clone()})
+					}
+				}
+				if err != nil || n == 0 {
+					break
+				}
+			}
+			rows.Close()
+		}
+	})
+	return f.probes
+}
+
+var c14ZeroBlock = make([]byte, bloom.BlockSize)
+
+func c14Lookup(r io.ReaderAt, size int64, f *c14File, lazy bool) (class, digest string, err error) {
+	defer func() {
+		if p := recover(); p != nil {
+			class, err = "panic", fmt.Errorf("%v | %s", p, c14Stack())
+		}
+	}()
+	opts := append([]parquet.FileOption{}, f.opts...)
+	if lazy {
+		opts = append(opts, parquet.SkipPageIndex(true), parquet.SkipBloomFilters(true))
+	}
+	probes := c14Probes(f)
+	pf, err := parquet.OpenFile(r, size, opts...)
+	if err != nil {
+		return "open-error", "", err
+	}
+	var sb strings.Builder
+	for gi, rg := range pf.RowGroups() {
+		for ci, cc := range rg.ColumnChunks() {
+			if bf := cc.BloomFilter(); bf != nil {
+				for _, p := range probes {
+					if p.rg != gi || p.col != ci {
+						continue
+					}
+					// dirty destination buffers: the probe that follows takes its block from a pool;
+					// leave one there that holds no bits (a zeroed filter answers "absent")
+					bloom.CheckSplitBlock(bytes.NewReader(c14ZeroBlock), bloom.BlockSize, 0)
+					ok, err := bf.Check(p.val)
+					if err != nil {
+						return "read-error", "", err
+					}
+					fmt.Fprintf(&sb, "rg%d col%d bloom(%s)=%v;", gi, ci, gen.ValueKey(p.val), ok)
+				}
+			}
+			index, err := cc.ColumnIndex()
+			switch {
+			case err == parquet.ErrMissingColumnIndex:
+			case err != nil:
+				return "read-error", "", err
+			default:
+				for i := 0; i < index.NumPages(); i++ {
+					fmt.Fprintf(&sb, "rg%d col%d page%d [%s %s] nulls=%d/%v;", gi, ci, i, gen.ValueKey(index.MinValue(i)), gen.ValueKey(index.MaxValue(i)), index.NullCount(i), index.NullPage(i))
+				}
+			}
+			oi, err := cc.OffsetIndex()
+			switch {
+			case err == parquet.ErrMissingOffsetIndex:
+			case err != nil:
+				return "read-error", "", err
+			default:
+				for i := 0; i < oi.NumPages(); i++ {
+					fmt.Fprintf(&sb, "rg%d col%d page%d @%d+%d row %d;", gi, ci, i, oi.Offset(i), oi.CompressedPageSize(i), oi.FirstRowIndex(i))
+				}
+			}
+		}
+		sb.WriteByte('\n')
+	}
+	return "ok", sb.String(), nil
 }
 
 // c14Collector is the RowWriter the copy histories write to: it digests what it is given
@@ -2334,7 +2451,11 @@ func c14ReadAtHistory(ctx *core.Ctx, f *c14File, h c14History, bounds []int64, s
 				if h.name != "sequential" {
 					key += " " + hk
 				}
-				ctx.Fail("L1", key, fmt.Sprintf("ReadAt call %d fails (%s) and the reader returns fewer or different rows without an error", i, mode), detail)
+				what := "the reader returns fewer or different rows without an error"
+				if strings.HasPrefix(h.name, "lookup") {
+					what = "the lookup is answered differently (a bloom filter says absent for a key the chunk holds, or the page index differs) without an error: the rows behind it are missed"
+				}
+				ctx.Fail("L1", key, fmt.Sprintf("ReadAt call %d fails (%s) and %s", i, mode, what), detail)
 			case "complete":
 				// every row was returned although a read failed: the bytes were not needed or were
 				// fetched again; not a loss, counted
